@@ -53,6 +53,9 @@ def cases(tier, seed):
     for n in range(1, 4):
         for combo in itertools.product(range(len(lcv)), repeat=n):
             yield dict(lc=True, kind='lc', halos=[lcv[i] for i in combo])
+    # the directory is listed afresh on every load: superslab files appearing / disappearing between two loads in one process
+    for ci in (0, 1, 4):
+        yield dict(dirchange=True, cfg=ci)
     yield dict(negative=True)
 
 
@@ -78,6 +81,52 @@ def opts_for(cfg):
     else:
         o.update(AB='')
     return o
+
+
+def run_dirchange(case):
+    import tempfile
+    from vf import catgen
+    from vf.checks import c01
+    A = alphabet()
+    cat = catgen.Catalog([[A[0]], [A[1], A[2]], [A[0], A[1]]])
+    cfg = CONFIGS[case['cfg']]
+    o = opts_for(cfg)
+    root = tempfile.mkdtemp(prefix='DYN', dir=_ENV.root)
+    zdir = os.path.join(root, catgen.SIM, 'halos', catgen.ZDIR)
+
+    def paths(si):
+        return [os.path.join(root, catgen.SIM, 'halos', catgen.ZDIR, 'halo_info', f'halo_info_{si:03d}.asdf'),
+                os.path.join(root, 'cleaning', catgen.SIM, catgen.ZDIR, 'cleaned_halo_info', f'cleaned_halo_info_{si:03d}.asdf'),
+                os.path.join(root, 'cleaning', catgen.SIM, catgen.ZDIR, 'cleaned_rvpid', f'cleaned_rvpid_{si:03d}.asdf')]
+
+    def present(si, yes):
+        for p in paths(si):
+            os.makedirs(os.path.dirname(p), exist_ok=True)
+            if yes:
+                open(p, 'w').close()
+            elif os.path.exists(p):
+                os.remove(p)
+    _ENV.fake.store = {}
+    for rel, node in cat.files.items():
+        p = os.path.join(root, catgen.SIM, rel) if rel.startswith('halos/') else os.path.join(root, 'cleaning', catgen.SIM, catgen.ZDIR, rel[len('clean/'):])
+        _ENV.fake.store[os.path.abspath(p)] = node
+    probs = []
+    n = 0
+    steps = [([0, 1], 'initial'), ([0, 1, 2], 'superslab 2 appeared'), ([1, 2], 'superslab 0 removed'), ([0, 1, 2], 'superslab 0 back')]
+    for which, what in steps:
+        for si in range(3):
+            present(si, si in which)
+        for path in (zdir, os.path.join(zdir, 'halo_info')):
+            c = _ENV.load(path, cleaned=cfg['cleaned'], subsamples=subs_arg(cfg['subs']), fields=['id', 'N'])
+            n += 1
+            for p in c01.check_load(cat, c, o, which)[:1]:
+                probs.append(dict(sig='dirchange:stale-file-list', msg=f'cfg={cfg} after "{what}" (superslabs {which} on disk): {p}'))
+            exp = [m['id'] for s in which for m in cat.model[s]]
+            if [int(x) for x in c.halos['id']] != exp:
+                probs.append(dict(sig='dirchange:stale-file-list', msg=f'cfg={cfg} after "{what}" (superslabs {which} on disk): halo ids {list(c.halos["id"])} expected {exp}'))
+    seen = set()
+    probs = [p for p in probs if not (p['sig'] in seen or seen.add(p['sig']))]
+    return dict(problems=probs, evals=n, nt=[('dirchange', case['cfg'], w) for _, w in steps], extra=dict(dirchange_loads=n))
 
 
 def run_negative():
@@ -118,6 +167,8 @@ def run(case):
     import traceback
     if case.get('negative'):
         return run_negative()
+    if case.get('dirchange'):
+        return run_dirchange(case)
     if case.get('lc'):
         c01._ENV = _ENV
         r = c01.run_lc(case, with_masks=True)
